@@ -1,5 +1,7 @@
 import PikaVerif.Model.CV
+import PikaVerif.Model.Stop
 import Driver.Util
+import Driver.StopDrv
 /-! Driver for the condition-variable model (C07): parser, acceptor run, independent monitors. -/
 namespace Driver.CVDrv
 open PikaVerif PikaVerif.CV Driver
@@ -231,6 +233,91 @@ def monitors (c : Case) (ls : List Line) (n : Nat) : List String :=
   let stv := if c.status == "ok" || c.status == "deadlock" then [] else [s!"run ended with status '{c.status}'"]
   m.viol.reverse ++ endv ++ stv
 
+/-! ## Cross-check of the stop-state interface against C14's model
+
+The `stop.*` lines of a C07 log are also replayed through C14's acceptor `Stop.step`
+(`Model/Stop.lean`, the repaired code variant, one stop source): the abstract stop state of
+`Model/CV.lean` is tied to the real code by `CV.step`, and the same real events must be a
+behaviour of C14's detailed model, so C14's theorems (one winner, sticky flag, each callback
+exactly once, callback begins only under construction or after dequeue) hold of these logs.
+Operation boundaries that the cv harness does not log are synthesised: a stop-token wait whose
+`cva.stop0` read false constructs callback number `c` (fresh per wait); `~stop_callback` starts
+at the first `stop.load _ _ 0` of a thread that owns a registered callback and is not inside
+`request_stop`; the callback body (a `notify_all`, no stop-state event) is `cb.begin; cb.end`
+at `stop.post_exec` / `stop.infin`. -/
+structure SI where
+  nextC : Nat := 0
+  cbOf : Nat → Nat := fun _ => 0            -- thread ↦ its current callback number
+  kept : Nat → Bool := fun _ => false       -- … registered (add_callback returned true)
+  dtor : Nat → Bool := fun _ => false       -- … inside ~stop_callback
+  inRs : Nat → Bool := fun _ => false       -- thread is inside request_stop
+  objC : List (Nat × Nat) := []             -- callback object ↦ callback number
+
+partial def toStopEvents : List Line → SI → List (Option Stop.Ev × String) → List (Option Stop.Ev × String)
+  | [], _, acc => acc.reverse
+  | l :: rest, st, acc =>
+    let t := l.tid
+    let c := st.cbOf t
+    let emit (st' : SI) (es : List Stop.Ev) := toStopEvents rest st' ((es.map (fun e => (some e, l.raw))).reverse ++ acc)
+    let bad (_ : Unit) := toStopEvents rest st ((none, l.raw) :: acc)
+    let objc (o : Nat) : Option Nat := (st.objC.find? (fun p => p.1 == o)).map (·.2)
+    let w := StopDrv.decodeWord l.a
+    -- the destructor of a registered callback starts with a plain lock()
+    let pre (_ : Unit) : SI × List Stop.Ev :=
+      if l.b == 0 && !st.inRs t && st.kept t && !st.dtor t then
+        ({ st with dtor := upd st.dtor t true }, [Stop.Ev.inv t (.unreg c)])
+      else (st, [])
+    match l.site with
+    | "inv.stop" => emit { st with inRs := upd st.inRs t true } [.inv t .rs]
+    | "ret" =>
+      if st.inRs t then emit { st with inRs := upd st.inRs t false } [.ret t (l.a != 0)]
+      else toStopEvents rest st acc
+    | "cva.stop0" =>
+      if l.a != 0 then toStopEvents rest st acc
+      else emit { st with nextC := st.nextC + 1, cbOf := upd st.cbOf t st.nextC } [.inv t (.reg st.nextC)]
+    | "stop.load" => let (st', es) := pre (); emit st' (es ++ [.load t w.lk w.rq w.src])
+    | "stop.casfail" => let (st', es) := pre (); emit st' (es ++ [.casFail t w.lk w.rq w.src])
+    | "stop.reload" => let (st', es) := pre (); emit st' (es ++ [.reload t w.lk w.rq w.src])
+    | "stop.acq" => emit st [.acq t]
+    | "stop.push" =>
+      emit { st with kept := upd st.kept t true, objC := (l.obj, c) :: st.objC.filter (fun p => p.1 != l.obj) }
+        [.push t c (l.a != 0), .ret t true]
+    | "stop.infin" => emit st [.cbBegin t c, .cbEnd t c, .inFin t c, .ret t false]
+    | "stop.deq" => match objc l.obj with
+      | some d => emit st [.deq t d (l.a != 0)]
+      | none => bad ()
+    | "stop.pre_exec" => match objc l.obj with
+      | some d => emit st [.preExec t d]
+      | none => bad ()
+    | "stop.post_exec" => match objc l.obj with
+      | some d => emit st [.cbBegin t d, .cbEnd t d]
+      | none => bad ()
+    | "stop.fin" => match objc l.obj with
+      | some d => emit st [.finStore t d (l.a != 0)]
+      | none => bad ()
+    | "stop.rsdone" => emit st [.rsDone t]
+    | "stop.unlink" =>
+      if l.a != 0 then
+        emit { st with kept := upd st.kept t false, dtor := upd st.dtor t false } [.unlink t c true, .ret t true]
+      else emit st [.unlink t c false]
+    | "stop.self" =>
+      if l.a != 0 then
+        emit { st with kept := upd st.kept t false, dtor := upd st.dtor t false } [.selfChk t c true false, .ret t false]
+      else emit st [.selfChk t c false false]
+    | "stop.waited" =>
+      emit { st with kept := upd st.kept t false, dtor := upd st.dtor t false } [.waited t c, .ret t false]
+    | "stop.setrem" => bad ()
+    | _ => toStopEvents rest st acc
+
+/-- `none` = accepted by C14's model (or no stop event in the log). -/
+def stopIface (K : Nat) (ls : List Line) : Option String :=
+  let evs := toStopEvents ls {} []
+  if evs.isEmpty then none else
+  let s0 := Stop.init (3 * K) K (fun a => a % K + 1) true true 1
+  match StopDrv.accept s0 evs 0 with
+  | .error (i, raw) => some s!"C14 model (Stop.step) rejects stop event {i} [{raw}]"
+  | .ok _ => none
+
 def runCase (c : Case) : String :=
   let n := c.threads.length
   let parsed := c.lines.map parseLine
@@ -242,15 +329,18 @@ def runCase (c : Case) : String :=
   match accept (CV.init n (c.getNat "flag" != 0)) evs 0 with
   | .error (i, raw) => s!"case {c.id} reject {i} [{raw}] ; {monS}"
   | .ok s =>
-    let classes := (List.range n).map (pcClass s)
-    let fin :=
-      if c.status == "ok" then
-        if classes.all (· == "fin") then "final ok" else "final MISMATCH: run ended but model threads " ++ toString classes
-      else if c.status == "deadlock" then
-        if classes.all (fun x => x == "fin" || x == "blocked" || x == "idle") && s.lock.isNone
-        then s!"final stuck blocked={(classes.filter (· == "blocked")).length} queue={s.queue.length}"
-        else "final MISMATCH: implementation is quiescent but model threads " ++ toString classes
-      else s!"final status {c.status}"
-    s!"case {c.id} accept {evs.length} ; {fin} ; {monS}"
+    match stopIface n ls with
+    | some msg => s!"case {c.id} reject 0 [{msg}] ; {monS}"
+    | none =>
+      let classes := (List.range n).map (pcClass s)
+      let fin :=
+        if c.status == "ok" then
+          if classes.all (· == "fin") then "final ok" else "final MISMATCH: run ended but model threads " ++ toString classes
+        else if c.status == "deadlock" then
+          if classes.all (fun x => x == "fin" || x == "blocked" || x == "idle") && s.lock.isNone
+          then s!"final stuck blocked={(classes.filter (· == "blocked")).length} queue={s.queue.length}"
+          else "final MISMATCH: implementation is quiescent but model threads " ++ toString classes
+        else s!"final status {c.status}"
+      s!"case {c.id} accept {evs.length} ; {fin} ; {monS}"
 
 end Driver.CVDrv
